@@ -136,8 +136,12 @@ func (q *queue) pop() (tla.Value, bool) {
 
 // fifoNet: per-(sender instance, destination) FIFO links; which link a read delivers from is drawn.
 type fifoNet struct {
-	links map[string]*queue
-	cap   int
+	links    map[string]*queue
+	fromNode map[string]int
+	cap      int
+	// Isolated nodes neither receive nor have their queued messages delivered for now
+	// (messages are only delayed, never lost): this is how partitions are scheduled.
+	Isolated map[int]bool
 }
 
 func (n *fifoNet) begin() {
@@ -150,20 +154,24 @@ func (n *fifoNet) end(abort bool) {
 		q.end(abort)
 	}
 }
-func (n *fifoNet) link(from string, to int) *queue {
+func (n *fifoNet) link(from string, fromNode int, to int) *queue {
 	k := fmt.Sprintf("%03d<%s", to, from)
 	q, ok := n.links[k]
 	if !ok {
 		q = &queue{}
 		n.links[k] = q
+		n.fromNode[k] = fromNode
 	}
 	return q
 }
 func (n *fifoNet) pendingFor(to int) []*queue {
 	var ks []string
+	if n.Isolated[to] {
+		return nil
+	}
 	p := fmt.Sprintf("%03d<", to)
 	for k, q := range n.links {
-		if len(k) >= 4 && k[:4] == p && len(q.items) > 0 {
+		if len(k) >= 4 && k[:4] == p && len(q.items) > 0 && !n.Isolated[n.fromNode[k]] {
 			ks = append(ks, k)
 		}
 	}
@@ -178,6 +186,18 @@ func (n *fifoNet) count(to int) int {
 	c := 0
 	for _, q := range n.pendingFor(to) {
 		c += len(q.items)
+	}
+	return c
+}
+
+// queued counts everything addressed to a node, deliverable now or not (for the buffer bound).
+func (n *fifoNet) queued(to int) int {
+	c := 0
+	p := fmt.Sprintf("%03d<", to)
+	for k, q := range n.links {
+		if len(k) >= 4 && k[:4] == p {
+			c += len(q.items)
+		}
 	}
 	return c
 }
@@ -209,7 +229,7 @@ func NewRaft(o RaftOpts, choose func(in *sched.Instance, id string, k uint) uint
 		}
 		return r.Sim.Ask(fmt.Sprintf("pct:%d:%s", p, what), 2) == 1
 	}
-	r.net = &fifoNet{links: map[string]*queue{}, cap: o.MailboxCap}
+	r.net = &fifoNet{links: map[string]*queue{}, fromNode: map[string]int{}, cap: o.MailboxCap, Isolated: map[int]bool{}}
 	r.txn = append(r.txn, r.net)
 	closing := func() bool { return r.Sim.Closing }
 	n := o.NumServers
@@ -244,10 +264,10 @@ func NewRaft(o RaftOpts, choose func(in *sched.Instance, id string, k uint) uint
 					return v, nil
 				},
 				write: func(v tla.Value) error {
-					if closing() || r.net.count(dest) >= r.net.cap {
+					if closing() || r.net.queued(dest) >= r.net.cap {
 						return errAbort
 					}
-					r.net.link(inst, dest).push(v)
+					r.net.link(inst, node, dest).push(v)
 					return nil
 				},
 			}
@@ -501,6 +521,9 @@ func (r *Raft) Close() {
 
 // NodeOf is the server (1..N) or client id an instance belongs to.
 func (r *Raft) NodeOf(in *sched.Instance) int { return r.nodeOf[in] }
+
+// Isolate sets which nodes are cut off for now (their traffic is delayed, not lost).
+func (r *Raft) Isolate(nodes map[int]bool) { r.net.Isolated = nodes }
 
 // MailboxLen is the number of messages queued for a node.
 func (r *Raft) MailboxLen(node int) int { return r.net.count(node) }
